@@ -15,6 +15,21 @@
 (* Property C12 adds: each element is enumerated exactly once between two  *)
 (* Resets, with a correct remaining Len and a working Reset.               *)
 (*                                                                         *)
+(* The helper functions NodesOf / EdgesOf / WeightedEdgesOf / LinesOf /    *)
+(* WeightedLinesOf (same file) are a further operation on an iterator:     *)
+(*   XOf(it) "returns it.Len() nodes from it. If it is a NodeSlicer, the   *)
+(*          NodeSlice method is used to obtain the nodes. It is safe to    *)
+(*          pass a nil Nodes" - applied to an iterator at its CURRENT      *)
+(*          position it returns the items that remain (Len is "the number  *)
+(*          of items remaining"), by the slice form or by calling Next     *)
+(*          until it answers FALSE: nothing remains afterwards.  An        *)
+(*          iterator whose Len is negative ("the number of items ... is    *)
+(*          unknown", then "the consuming function must be able to operate *)
+(*          on the items of the iterator directly") still has every        *)
+(*          remaining item returned.                                       *)
+(* Op "Of" (code 8; 6 and 7 are taken by EdgeValue.tla) is enabled when    *)
+(* WithOf = TRUE.                                                          *)
+(*                                                                         *)
 (* State: the number pos of items handed out since the last Reset (by Next *)
 (* or by the slice form) out of N, and whether a current item is readable. *)
 (* WHICH item is handed out is left to the implementation (map backed      *)
@@ -32,12 +47,13 @@ EXTENDS Integers, Sequences, TLC, Json
 
 CONSTANTS MaxN,   \* collections of 0..MaxN items
           Depth,  \* calls per history
-          Emit    \* TRUE: print the histories (generator role)
+          Emit,   \* TRUE: print the histories (generator role)
+          WithOf  \* TRUE: the helper XOf(it) is one of the calls, and only histories that call it are printed
 
 VARIABLES n,      \* size of the collection
           pos,    \* items handed out since the last Reset
           valid,  \* the last call was a Next that returned TRUE
-          hist    \* <<op, answer, pos after the call>>; op 1 Next 2 Len 3 Reset 4 Slice 5 Item
+          hist    \* <<op, answer, pos after the call>>; op 1 Next 2 Len 3 Reset 4 Slice 5 Item 8 Of
 vars == <<n, pos, valid, hist>>
 
 Init == /\ n \in 0..MaxN
@@ -59,9 +75,13 @@ DoSlice == /\ pos' = n /\ valid' = FALSE /\ hist' = Append(hist, <<4, n - pos, n
 \* that Next handed out, however often it is read.
 DoItem == /\ valid /\ UNCHANGED <<pos, valid>> /\ hist' = Append(hist, <<5, pos, pos>>)
 
+\* XOf(it): hands out everything that remains (answer = how many), nothing remains afterwards; the
+\* current item, if any, was handed out by Next and is not among them.
+DoOf == /\ WithOf /\ pos' = n /\ valid' = FALSE /\ hist' = Append(hist, <<8, n - pos, n>>)
+
 Next == /\ Len(hist) < Depth
         /\ UNCHANGED n
-        /\ (DoNext \/ DoLen \/ DoReset \/ DoSlice \/ DoItem)
+        /\ (DoNext \/ DoLen \/ DoReset \/ DoSlice \/ DoItem \/ DoOf)
 
 Spec == Init /\ [][Next]_vars
 
@@ -73,5 +93,16 @@ LenLaw == \A i \in 1..Len(hist) : hist[i][1] = 2 => hist[i][2] = n - hist[i][3]
 Exhausted == \A i \in 1..Len(hist) - 1 :
                 (hist[i][1] = 1 /\ hist[i][2] = 0 /\ hist[i + 1][1] = 2) => hist[i + 1][2] = 0
 
-EmitHist == (Emit /\ Len(hist) = Depth) => PrintT(ToJson([n |-> n, h |-> hist]))
+\* XOf and the slice form hand out the same number of items from the same position, and leave the same
+\* position: whatever follows an Of answers as it would after a Slice (Len 0, Next FALSE, Of 0 until Reset)
+OfLaw == \A i \in 1..Len(hist) : hist[i][1] \in {4, 8} =>
+            /\ hist[i][3] = n
+            /\ hist[i][2] = n - (IF i = 1 THEN 0 ELSE hist[i - 1][3])
+            /\ i < Len(hist) =>
+                  /\ (hist[i + 1][1] \in {2, 4, 8} => hist[i + 1][2] = 0)
+                  /\ (hist[i + 1][1] = 1 => hist[i + 1][2] = 0)
+                  /\ hist[i + 1][1] # 5
+HasOf == \E i \in 1..Len(hist) : hist[i][1] = 8
+
+EmitHist == (Emit /\ Len(hist) = Depth /\ (WithOf => HasOf)) => PrintT(ToJson([n |-> n, h |-> hist]))
 =============================================================================
